@@ -385,6 +385,27 @@ def call_np(interp, name, args, kwargs, lineno):
     if name == 'isscalar':
         x = args[0]
         return isinstance(x, (Rat, bool, str))
+    if name in ('isinf', 'isnan', 'isfinite', 'isneginf', 'isposinf'):
+        # the properties quantify over finite data: symbolic values are finite real numbers (recorded as an assumption)
+        v = Rat.const(1 if name == 'isfinite' else 0)
+        x = args[0]
+        if isinstance(x, (Rat, bool)):
+            return name == 'isfinite'
+        a_ = snap(x)
+        return Box(Arr(a_.shape, lambda idx: v, 'bool', origin=lineno))
+    if name == 'prod':
+        x = args[0]
+        if isinstance(x, Rat):
+            return x
+        a_ = snap(x)
+        cs = a_.concrete_shape()
+        if cs is None or kwargs or len(args) > 1:
+            raise AnalysisError("np.prod over an array of symbolic shape / along an axis")
+        import itertools
+        out = ONE
+        for idx in itertools.product(*[range(n) for n in cs]):
+            out = out * a_.at(tuple(Rat.const(i) for i in idx))
+        return out
     if name in ('max', 'min', 'amax', 'amin', 'sum'):
         x = args[0]
         if isinstance(x, Rat):
